@@ -87,6 +87,11 @@ META = {
     'models': ['M2', 'M5'],
 }
 
+# The model mirrors the tree as it is.  When the repair proposed in findings/pending/C10-readded-dep-stale-state.md is
+# committed to /repo: set this to True (the model then uses `depChangedRepaired`, for which `C10_changed_repaired`
+# proves the full statement outside the F-C10 path) and turn the `open:` line of readded-dep-stale-state into `fixed:`.
+READDED_FIX_APPLIED = False
+
 OBS_PY = 'obs.jsonl'
 OBS_CMD = 'obs-cmd.txt'
 GETARGS_ERR = 'ERROR getting value for argument'
@@ -577,6 +582,9 @@ def translate(case, obs):
                         dl = delivered_saved.get(k) or {}
                         exp |= set(dl.get('deps', []))
                         tasks += list(dl.get('tasks', []))
+                        # a delivered file_dep that is another task's target is an implicit task_dep
+                        for q in dl.get('deps', []):
+                            tasks += [u for u, du in defs.items() if u != c and q in du['targets']]
                 order_ok = all(u in done_at and c in started_at and done_at[u] < started_at[c] and
                                out.get(tname(u)) in ('ok', 'up-to-date') for u in tasks) \
                     if o['op'][1].get('par') != 'process' else \
@@ -587,7 +595,7 @@ def translate(case, obs):
 
 def requests_of(case, tr):
     base = {'model': 'c10', 'ntasks': case['ntasks'], 'npaths': case['npaths']}
-    return [dict(base, mode='model', ops=tr.model), dict(base, mode='monitor', ops=tr.mon),
+    return [dict(base, mode='model', ops=tr.model, repaired=READDED_FIX_APPLIED), dict(base, mode='monitor', ops=tr.mon),
             {'model': 'c10', 'mode': 'getargs', 'ops': tr.vals}]
 
 
@@ -1005,8 +1013,13 @@ def gen_case(rng, parallel=False):
                     plan[str(sub_id(t, j))] = {'ok': rng.random() < 0.93, 'vid': rng.choice([None, 1, 2, 3, 4, 5, 6, 7, 8]), 'writes': []}
             elif r == 'calc':
                 cands = [u for u in range(ntasks) if roles[u] == 'producer']
+                ddeps = sorted(rng.sample(range(nsrc), rng.randint(0, min(2, nsrc))))
+                # a delivered file_dep that is the target of another task: implicit task_dep, same-run ordering
+                tgt = [q for u in range(ntasks) if roles[u] == 'consumer' and not tasks[u]['calc'] for q in tasks[u]['targets']]
+                if tgt and rng.random() < 0.35:
+                    ddeps.append(rng.choice(tgt))
                 plan[str(t)] = {'ok': rng.random() < 0.92, 'writes': [],
-                                'deliver': {'deps': sorted(rng.sample(range(nsrc), rng.randint(0, min(2, nsrc)))),
+                                'deliver': {'deps': ddeps,
                                             'tasks': [rng.choice(cands)] if cands and rng.random() < 0.4 else []}}
             else:
                 writes = [[p, rng.randrange(10, 16)] for p in d['targets'] if rng.random() < 0.85]
@@ -1206,7 +1219,7 @@ def random_for(ctx, i):
 
 def run(ctx):
     quick = ctx.tier == 'quick'
-    n_random = (260 if quick else 4000) * ctx.boost
+    n_random = (220 if quick else 4000) * ctx.boost
     items = []
     corpus = [(n, c) for n, c in common.load_corpus('C10')]
     for name, c in corpus:
